@@ -12,6 +12,11 @@
 (*   Profile "names":  attribute names with characters HTML cannot carry.  *)
 (*   Profile "repeat": every sequence of <= MaxKw keywords over 3 names    *)
 (*       (value = position), on top of every subset of attrs.              *)
+(*   Profile "aggrep": attrs / defaults written as aggregate keywords      *)
+(*       (attrs:k=v, defaults:k=v) where the same prefix:k is given up to  *)
+(*       three times - each as a variable, a literal or contributed by a   *)
+(*       ...spread - next to the other dictionary in another form and a    *)
+(*       plain keyword.  avias / dvias: how each aggregate entry is given. *)
 (***************************************************************************)
 EXTENDS HtmlAttrs, TLC, Json, IOUtils
 
@@ -38,6 +43,7 @@ NameSeq == CASE Profile = "values" -> <<"class">>
              [] Profile = "forms"  -> SubSeq(AllNames, 1, NNames)
              [] Profile = "names"  -> <<"id">>
              [] Profile = "repeat" -> AllNames
+             [] Profile = "aggrep" -> SubSeq(AllNames, 1, NNames)
 NameIdx(n) == CHOOSE i \in 1..Len(NameSeq) : NameSeq[i] = n
 \* names that cannot / need not come back letter for letter, and unusual but legal ones
 OddNames == {"x y", "a=b", "a/b", "a\tb", "a\nb", "on click=alert(1) x", "", " ",
@@ -45,7 +51,8 @@ OddNames == {"x y", "a=b", "a/b", "a\tb", "a\nb", "on click=alert(1) x", "", " "
              ":cls", "@a.b", "v-on:a", "x_1", "é"}
 
 DVals == CASE Profile = "values" -> ValsFull [] Profile = "forms" -> ValsSmall
-           [] Profile = "repeat" -> {S("base")} [] OTHER -> {S("v"), S("\"q"), T, N}
+           [] Profile = "repeat" -> {S("base")} [] Profile = "aggrep" -> {S("u v"), N}
+           [] OTHER -> {S("v"), S("\"q"), T, N}
 KVals == CASE Profile = "values" -> KwFull [] Profile = "forms" -> KwSmall [] OTHER -> {S("k")}
 
 \* fa / fd: how attrs / defaults are written.  "pos" positional, "kw" attrs=var before the other
@@ -59,6 +66,7 @@ FormPairsAll ==
           <<"absent", "absent">>, <<"absent", "agg">> >>
   ELSE IF Profile = "names" THEN << <<"pos", "pos">>, <<"kw", "kw">>, <<"spread", "spread">> >>
   ELSE IF Profile = "repeat" THEN << <<"pos", "absent">>, <<"kwlast", "absent">> >>
+  ELSE IF Profile = "aggrep" THEN << <<"agg", "agg">>, <<"agg", "kw">>, <<"kw", "agg">>, <<"pos", "agg">> >>
   ELSE << <<"pos", "pos">> >>
 \* an instance may be split over several TLC runs: run Split of Splits takes every Splits-th pair
 FormPairs == {FormPairsAll[i] : i \in {j \in 1..Len(FormPairsAll) : j % Splits = Split}}
@@ -66,33 +74,55 @@ Vias == IF Profile = "forms" THEN {"var", "lit", "spread"} ELSE {"var"}
 \* a keyword value may be written as a template literal only if that does not change its meaning
 LitOk(v) == v.t \in {"num", "true", "none"} \/ (v.t = "str" /\ v.s # "" /\ ~HasAny(v.s, Special \cup {"{", "%", "\\"}))
 
-VARIABLES c, fa, fd, vias
-mcVars == <<c, fa, fd, vias>>
+\* profile "aggrep": the value of the i-th aggregate entry of a dictionary (plain text / text that needs
+\* escaping or None - joining with None is a zone / a number) and how it may be given
+AggVals(i) == CASE i = 1 -> {S("a b")} [] i = 2 -> {S("\"<&"), N} [] OTHER -> {Num("7")}
+AggVias == {"var", "lit", "spread"}
+MaxRepeat == 3
+
+VARIABLES c, fa, fd, vias, avias, dvias
+mcVars == <<c, fa, fd, vias, avias, dvias>>
 
 Size == Len(c.defaults) + Len(c.attrs) + Len(c.kws)
 LastIdx(d) == IF d = <<>> THEN 0 ELSE NameIdx(d[Len(d)].n)
 
 MCInit == /\ c = [defaults |-> <<>>, attrs |-> <<>>, kws |-> <<>>]
-          /\ vias = <<>>
+          /\ vias = <<>> /\ avias = <<>> /\ dvias = <<>>
           /\ \E p \in FormPairs : fa = p[1] /\ fd = p[2]
 
+\* a dictionary written as aggregate keywords in profile "aggrep": any name again (a repeated prefix:name)
+AggRep(f) == Profile = "aggrep" /\ f = "agg"
 AddDefault == /\ fd # "absent" /\ c.attrs = <<>> /\ c.kws = <<>> /\ Size < MaxEntries
-              /\ \E n \in SeqRange(NameSeq), v \in DVals :
-                   /\ NameIdx(n) > LastIdx(c.defaults)
-                   /\ c' = [c EXCEPT !.defaults = Append(@, E(n, v))]
-              /\ UNCHANGED <<fa, fd, vias>>
+              /\ IF AggRep(fd)
+                 THEN /\ Len(c.defaults) < MaxRepeat
+                      /\ \E n \in SeqRange(NameSeq), v \in AggVals(Len(c.defaults) + 1), via \in AggVias :
+                           /\ via = "lit" => LitOk(v)
+                           /\ c' = [c EXCEPT !.defaults = Append(@, E(n, v))]
+                           /\ dvias' = Append(dvias, via)
+                 ELSE /\ \E n \in SeqRange(NameSeq), v \in DVals :
+                           /\ NameIdx(n) > LastIdx(c.defaults)
+                           /\ c' = [c EXCEPT !.defaults = Append(@, E(n, v))]
+                      /\ UNCHANGED dvias
+              /\ UNCHANGED <<fa, fd, vias, avias>>
 AddAttr == /\ fa \notin {"absent", "posnone"} /\ c.kws = <<>> /\ Size < MaxEntries
-           /\ \E n \in SeqRange(NameSeq), v \in DVals :
-                /\ NameIdx(n) > LastIdx(c.attrs)
-                /\ c' = [c EXCEPT !.attrs = Append(@, E(n, v))]
-           /\ UNCHANGED <<fa, fd, vias>>
+           /\ IF AggRep(fa)
+              THEN /\ Len(c.attrs) < MaxRepeat
+                   /\ \E n \in SeqRange(NameSeq), v \in AggVals(Len(c.attrs) + 1), via \in AggVias :
+                        /\ via = "lit" => LitOk(v)
+                        /\ c' = [c EXCEPT !.attrs = Append(@, E(n, v))]
+                        /\ avias' = Append(avias, via)
+              ELSE /\ \E n \in SeqRange(NameSeq), v \in DVals :
+                        /\ NameIdx(n) > LastIdx(c.attrs)
+                        /\ c' = [c EXCEPT !.attrs = Append(@, E(n, v))]
+                   /\ UNCHANGED avias
+           /\ UNCHANGED <<fa, fd, vias, dvias>>
 AddKw == /\ Len(c.kws) < MaxKw /\ Size < MaxEntries
          /\ \E n \in SeqRange(NameSeq), via \in Vias :
             \E v \in (IF Profile = "repeat" THEN {S("k" \o ToString(Len(c.kws) + 1))} ELSE KVals) :
               /\ via = "lit" => LitOk(v)
               /\ c' = [c EXCEPT !.kws = Append(@, E(n, v))]
               /\ vias' = Append(vias, via)
-         /\ UNCHANGED <<fa, fd>>
+         /\ UNCHANGED <<fa, fd, avias, dvias>>
 \* profile "names": one odd name in attrs or defaults (or both: override), next to an ordinary entry
 AddOdd == /\ Profile = "names" /\ c.attrs = <<>> /\ c.kws = <<>>
           /\ \E n \in OddNames, v \in DVals, both \in BOOLEAN, where \in {"attrs", "defaults", "override"} :
@@ -100,7 +130,7 @@ AddOdd == /\ Profile = "names" /\ c.attrs = <<>> /\ c.kws = <<>>
                                     \o (IF both THEN <<E("id", S("i"))>> ELSE <<>>),
                      attrs |-> (IF where # "defaults" THEN <<E(n, v)>> ELSE <<>>),
                      kws |-> <<>>]
-          /\ UNCHANGED <<fa, fd, vias>>
+          /\ UNCHANGED <<fa, fd, vias, avias, dvias>>
 
 MCNext == IF Profile = "names" THEN AddOdd \/ (c.attrs # <<>> /\ c.defaults # <<>> /\ AddKw)
           ELSE AddDefault \/ AddAttr \/ AddKw
@@ -132,7 +162,7 @@ CaseOK ==
   LET its == Items(c) IN
   /\ RoundTripI(its)
   /\ Serialize(ToJson([profile |-> Profile, defaults |-> c.defaults, attrs |-> c.attrs, kws |-> c.kws,
-                       vias |-> vias, fa |-> fa, fd |-> fd,
+                       vias |-> vias, fa |-> fa, fd |-> fd, avias |-> avias, dvias |-> dvias,
                        items |-> [i \in 1..Len(its) |-> ItemJ(its[i])],
                        err |-> ErrOk(its)]) \o "\n",
                IOEnv.OUT, [format |-> "TXT", charset |-> "UTF-8",
